@@ -5,7 +5,7 @@
 //! registrations), consumed, and at the end of every dispatch the obligations are checked.
 //! Rule ids are the ones of DESIGN.md Appendix A; `props` lists the properties a rule speaks for.
 
-use super::ops::{FailStep, FdKind, Kind, PostRet, TRet};
+use super::ops::{CKind, FailStep, FdKind, Kind, PostRet, TRet};
 use super::trace::*;
 use crate::driver::Violation;
 use std::collections::{BTreeMap, BTreeSet, VecDeque};
@@ -81,6 +81,31 @@ struct MSrc {
     released: bool,
     recycled: bool,
     how_removed: Option<&'static str>,
+    children: Vec<MChild>,
+    /// composite: sub-tokens of the children shifted during the current dispatch
+    renumbered_in_disp: bool,
+}
+
+/// Child of a composite source.
+#[derive(Clone, Debug)]
+struct MChild {
+    kind: CKind,
+    transient: bool,
+    fd: i32,
+    key: Option<u64>,
+    /// removed / disabled through its TransientSource wrapper
+    gone: bool,
+    disabled: bool,
+    pings: u32,
+    r: bool,
+    ever_r: bool,
+    deadline: Option<i64>,
+    dl_open: bool,
+    armed_dl: Option<i64>,
+    owed: bool,
+    called: u32,
+    /// changed its own state during the current event processing: remaining events tolerated
+    latitude: bool,
 }
 
 #[derive(Clone, Debug)]
@@ -147,6 +172,8 @@ pub struct Facts {
     pub failed_reg_multi_step: u32,
     pub err_with_pending_batch: u32,
     pub recycles: u32,
+    pub comp_sources: u32,
+    pub comp_rereg_in_batch: u32,
     pub readapts: u32,
     pub failed_adapts: u32,
     pub adapts: u32,
@@ -186,6 +213,8 @@ pub struct Monitor {
     disp_last_timer_ev: Option<i64>,
     disp_actors: u32,
     cur_proc: Option<SrcId>,
+    cur_proc_key: u64,
+    cur_child: Option<u8>,
     cur_cb: Option<SrcId>,
     cb_depth: u32,
     cur_idle: Option<IdleId>,
@@ -205,6 +234,10 @@ pub struct Judged {
 
 type V = Option<(Violation, Vec<&'static str>)>;
 
+/// Known finding F12: a composite whose children's sub-tokens shifted during the current dispatch
+/// (a TransientSource child left) receives the stale events of the batch under the new numbering.
+pub const SIG_F12: &str = "C01/composite-renumbered-in-batch";
+
 fn viol(rule: &str, props: &[&'static str], detail: String) -> V {
     Some((Violation::new(rule, detail), props.to_vec()))
 }
@@ -221,6 +254,7 @@ fn kind_name(k: &Kind) -> &'static str {
         Kind::Gen { .. } => "gen",
         Kind::Exec => "exec",
         Kind::BadGen { .. } => "badgen",
+        Kind::Comp { .. } => "comp",
         Kind::Probe { .. } => "probe",
     }
 }
@@ -247,6 +281,8 @@ impl Monitor {
             disp_last_timer_ev: None,
             disp_actors: 0,
             cur_proc: None,
+            cur_proc_key: 0,
+            cur_child: None,
             cur_cb: None,
             cb_depth: 0,
             cur_idle: None,
@@ -388,6 +424,100 @@ impl Monitor {
             &["C09", "C07", "C15"],
             format!("{:?} of source #{src} outside any operation or post-action window", ev.kind),
         )
+    }
+
+    /// Composite sources report the key every child holds after a (re)registration (u64::MAX = none).
+    fn comp_keys(&mut self, s: SrcId, keys: &[u64], registered: bool) {
+        let in_disp = self.in_disp;
+        let m = &mut self.srcs[s];
+        if m.children.is_empty() {
+            return;
+        }
+        let mut renumbered = false;
+        for (i, c) in m.children.iter_mut().enumerate() {
+            let k = if registered { keys.get(i).copied().filter(|k| *k != u64::MAX) } else { None };
+            if c.key.is_some() && k.is_some() && c.key != k {
+                renumbered = true;
+            }
+            c.key = k;
+            if k.is_some() {
+                // a child that holds a sub-token again is active again (re-registered after a self-disable)
+                c.disabled = false;
+            }
+            if let CKind::Timer { .. } = c.kind {
+                // Timer::register arms whenever it has a deadline; unregister cancels
+                c.armed_dl = if k.is_some() { c.deadline } else { None };
+            }
+        }
+        if renumbered && in_disp {
+            self.srcs[s].renumbered_in_disp = true;
+            self.facts.comp_rereg_in_batch += 1;
+        }
+    }
+
+    fn check_child_cause(&mut self, s: SrcId, child: u8, inner: &Payload, t_ns: i64) -> V {
+        let proc_key = self.cur_proc_key;
+        let m = &mut self.srcs[s];
+        let Some(c) = m.children.get_mut(child as usize) else {
+            return viol("C01.cause", &["C01"], format!("composite #{s} reported an event of child {child} which does not exist"));
+        };
+        if (c.gone || c.disabled) && !c.latitude {
+            return viol(
+                "C01.live",
+                &["C01", "C18", "C06", "C07"],
+                format!("composite #{s}: callback for child {child} which was {} through its transient wrapper", if c.gone { "removed" } else { "disabled" }),
+            );
+        }
+        match c.key {
+            Some(k) if k == proc_key => {}
+            other => {
+                if !c.latitude {
+                    return Some((
+                        Violation::new(
+                            "C01.key",
+                            format!("composite #{s}: child {child} ({:?}) was called back while the event being processed carries key {proc_key:#x}; the child's own sub-token is {other:x?}", c.kind),
+                        )
+                        .with_sig("C01.key/composite-child-foreign-subtoken"),
+                        vec!["C01"],
+                    ));
+                }
+            }
+        }
+        match inner {
+            Payload::Ping => {
+                if c.pings == 0 {
+                    return Some((
+                        Violation::new("C01.cause", format!("composite #{s}: ping child {child} called back without a ping of that child")).with_sig("C01.cause/composite-child"),
+                        vec!["C01"],
+                    ));
+                }
+                c.pings = 0;
+            }
+            Payload::Timer(ev) => {
+                let Some(armed) = c.armed_dl else {
+                    return viol("C05.cancelled", &["C05", "C01"], format!("composite #{s}: timer child {child} fired (event {ev}) without a live arming"));
+                };
+                if !c.dl_open && c.deadline != Some(*ev) {
+                    return viol("C05.deadline", &["C05", "C01"], format!("composite #{s}: timer child {child} fired with event {ev}, current deadline {:?}", c.deadline));
+                }
+                if t_ns < *ev {
+                    return viol("C05.early", &["C05", "C01"], format!("composite #{s}: timer child {child} fired {} ns early (arming {armed})", ev - t_ns));
+                }
+                c.armed_dl = None;
+            }
+            Payload::Ready { r, .. } => {
+                if *r && !c.ever_r {
+                    return Some((
+                        Violation::new("C01.cause", format!("composite #{s}: fd child {child} (fd {}) reported readable although its fd was not readable since the poll", c.fd)).with_sig("C01.cause/composite-child"),
+                        vec!["C01", "C02"],
+                    ));
+                }
+            }
+            _ => {}
+        }
+        c.called += 1;
+        c.owed = false;
+        None
     }
 
     // ------------------------------------------------------------------ post-action window
@@ -558,6 +688,9 @@ impl Monitor {
                         if let Kind::Probe { lifecycle: true, .. } = m.kind {
                             self.facts.lifecycle_sources += 1;
                         }
+                        if let Kind::Comp { .. } = m.kind {
+                            self.facts.comp_sources += 1;
+                        }
                     }
                     (false, false) => {
                         self.srcs[src].st = St::Rejected;
@@ -671,7 +804,8 @@ impl Monitor {
                         if was_enabled {
                             // a second registration that is refused leaves everything as it was; one that is
                             // accepted (timers arm twice) is misuse the statements do not cover
-                            if call_ok {
+                            if call_ok || matches!(self.srcs[s].kind, Kind::Comp { .. }) {
+                                // (a composite may have re-registered some children before one refused)
                                 self.taint(s, "enable_while_enabled");
                             } else {
                                 self.facts.failed_registrations += 1;
@@ -688,7 +822,7 @@ impl Monitor {
                         if let Kind::Probe { lifecycle: true, .. } = self.srcs[s].kind {
                             self.facts.lifecycle_updates += 1;
                         }
-                        if !was_enabled && call_ok {
+                        if !was_enabled && (call_ok || matches!(self.srcs[s].kind, Kind::Comp { .. })) {
                             self.taint(s, "update_while_disabled");
                         } else if was_enabled && !call_ok {
                             self.taint(s, "failed_reregister");
@@ -836,6 +970,19 @@ impl Monitor {
                 None
             }
             ROp::InsertBad { .. } => None,
+            ROp::CompPoke { src, child } => {
+                if let Some(c) = self.srcs[src].children.get_mut(child as usize) {
+                    match c.kind {
+                        CKind::Ping => c.pings += 1,
+                        CKind::Gen => {
+                            c.r = true;
+                            c.ever_r = true;
+                        }
+                        _ => {}
+                    }
+                }
+                None
+            }
         }
     }
 
@@ -980,6 +1127,10 @@ impl Monitor {
                 }
             }
             Payload::Out { .. } => {}
+            Payload::Child { child, inner } => {
+                let renum = self.srcs[s].renumbered_in_disp;
+                return self.check_child_cause(s, *child, inner, t_ns).map(|(v, p)| if renum { (v.with_sig(SIG_F12), p) } else { (v, p) });
+            }
         }
         None
     }
@@ -993,6 +1144,7 @@ impl Monitor {
             m.called = 0;
             m.touched = false;
             m.rearmed_in_disp = false;
+            m.renumbered_in_disp = false;
             m.poll_interest = m.interest;
             m.stale_event_possible = false;
             m.bs = 0;
@@ -1041,6 +1193,22 @@ impl Monitor {
                     any
                 }
                 Kind::Exec | Kind::BadGen { .. } => false,
+                Kind::Comp { .. } => {
+                    let mut any = false;
+                    for c in m.children.iter_mut() {
+                        c.called = 0;
+                        c.ever_r = c.r;
+                        c.latitude = false;
+                        let cause = match c.kind {
+                            CKind::Ping => c.pings > 0,
+                            CKind::Gen => c.r,
+                            CKind::Timer { .. } => c.armed_dl.map(|d| d <= t_before).unwrap_or(false) && !c.dl_open,
+                        };
+                        c.owed = cause && c.key.is_some() && !c.gone && !c.disabled;
+                        any |= c.owed;
+                    }
+                    any
+                }
             };
             if owed {
                 m.owed = true;
@@ -1129,6 +1297,28 @@ impl Monitor {
                     released: false,
                     recycled: false,
                     how_removed: None,
+                    renumbered_in_disp: false,
+                    children: info
+                        .children
+                        .iter()
+                        .map(|(k, t, fd, dl)| MChild {
+                            kind: *k,
+                            transient: *t,
+                            fd: *fd,
+                            key: None,
+                            gone: false,
+                            disabled: false,
+                            pings: 0,
+                            r: false,
+                            ever_r: false,
+                            deadline: *dl,
+                            dl_open: false,
+                            armed_dl: None,
+                            owed: false,
+                            called: 0,
+                            latitude: false,
+                        })
+                        .collect(),
                 });
                 if let Some(from) = info.recycled_from {
                     self.srcs[from].recycled = true;
@@ -1325,6 +1515,7 @@ impl Monitor {
                     }
                 }
                 self.cur_proc = Some(s);
+                self.cur_proc_key = *key;
                 let m = &self.srcs[s];
                 if m.taint.is_none() && m.st != St::Created && m.st != St::Rejected && key_src(*key) != key_src(m.key) {
                     return viol(
@@ -1370,6 +1561,9 @@ impl Monitor {
                 if self.cur_proc != Some(s) {
                     return viol("C01.live", &["C01"], format!("callback of source #{s} invoked while source {:?} is being processed", self.cur_proc));
                 }
+                if let Payload::Child { child, .. } = payload {
+                    self.cur_child = Some(*child);
+                }
                 if let Some(v) = self.check_cause(s, payload, *t_ns) {
                     return Some(v);
                 }
@@ -1389,10 +1583,55 @@ impl Monitor {
                 }
                 None
             }
-            Ev::CbEnd { src, timer, new_deadline_ns, t_ns, .. } => {
+            Ev::CbEnd { src, timer, new_deadline_ns, t_ns, post } => {
                 let s = *src;
                 self.cur_cb = None;
                 self.cb_depth = self.cb_depth.saturating_sub(1);
+                if let Some(ci) = self.cur_child.take() {
+                    let reg = self.srcs[s].registered;
+                    if let Some(c) = self.srcs[s].children.get_mut(ci as usize) {
+                        if let CKind::Timer { .. } = c.kind {
+                            match timer {
+                                TRet::Drop => {}
+                                TRet::ToInstant(d) => {
+                                    // the composite computes the instant itself: callback start + d .. return + d
+                                    // (deadline known only approximately: dl_open)
+                                    c.deadline = Some(*t_ns + *d as i64 * 1000);
+                                    c.dl_open = true;
+                                    c.armed_dl = if reg && c.key.is_some() { c.deadline } else { None };
+                                }
+                                TRet::ToDuration(us) => {
+                                    c.deadline = Some(*t_ns + *us as i64 * 1000);
+                                    c.dl_open = true;
+                                    c.armed_dl = if reg && c.key.is_some() { c.deadline } else { None };
+                                }
+                                TRet::ToDurationMax => {
+                                    c.deadline = None;
+                                }
+                            }
+                        }
+                        if c.transient && matches!(c.kind, CKind::Timer { .. }) && matches!(timer, TRet::Drop | TRet::ToDurationMax) {
+                            // the timer asks for its own removal: the transient wrapper drops it
+                            c.gone = true;
+                            c.latitude = true;
+                        }
+                        if c.transient {
+                            match post {
+                                PostRet::Remove => {
+                                    c.gone = true;
+                                    c.latitude = true;
+                                }
+                                PostRet::Disable => {
+                                    c.disabled = true;
+                                    c.latitude = true;
+                                }
+                                _ => {}
+                            }
+                        }
+                    }
+                    let _ = new_deadline_ns;
+                    return None;
+                }
                 if let Kind::Timer { .. } = self.srcs[s].kind {
                     let m = &mut self.srcs[s];
                     match timer {
@@ -1475,9 +1714,24 @@ impl Monitor {
                 self.win = Some(PostWin { src: s, effective, removed_in_cb, events: vec![], err: false });
                 None
             }
-            Ev::Reg { src, res, .. } => self.on_regev(RegKind::Reg, *src, res),
-            Ev::Rereg { src, res, .. } => self.on_regev(RegKind::Rereg, *src, res),
-            Ev::Unreg { src, res } => self.on_regev(RegKind::Unreg, *src, res),
+            Ev::Reg { src, res, keys } => {
+                if res.is_ok() {
+                    self.comp_keys(*src, keys, true);
+                }
+                self.on_regev(RegKind::Reg, *src, res)
+            }
+            Ev::Rereg { src, res, keys } => {
+                if res.is_ok() {
+                    self.comp_keys(*src, keys, true);
+                }
+                self.on_regev(RegKind::Rereg, *src, res)
+            }
+            Ev::Unreg { src, res } => {
+                if res.is_ok() {
+                    self.comp_keys(*src, &[], false);
+                }
+                self.on_regev(RegKind::Unreg, *src, res)
+            }
             Ev::IdleRun { idle } => {
                 if let Some(v) = self.close_win() {
                     return Some(v);
@@ -1568,6 +1822,7 @@ impl Monitor {
                                 continue;
                             }
                             let missing = match &m.kind {
+                                Kind::Comp { .. } => m.children.iter().any(|c| c.owed && c.called == 0 && !c.gone && !c.disabled && c.key.is_some()),
                                 Kind::Probe { .. } => m.owed_subs.iter().any(|o| *o),
                                 _ => m.called == 0,
                             };
@@ -1576,6 +1831,7 @@ impl Monitor {
                                     Kind::Timer { .. } => ("C05.window", &["C05", "C02", "C15"]),
                                     _ => ("C02.owed", &["C02", "C07", "C15", "C03", "C04"]),
                                 };
+                                let renum = m.renumbered_in_disp;
                                 return viol(
                                     rule,
                                     props,
@@ -1584,7 +1840,8 @@ impl Monitor {
                                         kind_name(&m.kind),
                                         self.disp_t0
                                     ),
-                                );
+                                )
+                                .map(|(v, p)| if renum { (v.with_sig(SIG_F12), p) } else { (v, p) });
                             }
                         }
                         // a ping source whose handles are all gone must have removed itself
@@ -1675,7 +1932,8 @@ impl Monitor {
                         vec!["C14", "C15"],
                     ));
                 }
-                let want_heap = self.srcs.iter().filter(|m| matches!(m.kind, Kind::Timer { .. }) && m.armed_dl.is_some()).count();
+                let want_heap = self.srcs.iter().filter(|m| matches!(m.kind, Kind::Timer { .. }) && m.armed_dl.is_some()).count()
+                    + self.srcs.iter().map(|m| m.children.iter().filter(|c| c.armed_dl.is_some()).count()).sum::<usize>();
                 if *heap != want_heap {
                     return viol("C05.residue", &["C05"], format!("timer heap holds {heap} entries, model has {want_heap} live unfired armings"));
                 }
@@ -1772,6 +2030,15 @@ impl Monitor {
                     Kind::Probe { .. } => {
                         for i in 0..m.sub_pings.len() as u64 {
                             want_keys.push(m.key + i);
+                        }
+                    }
+                    Kind::Comp { .. } => {
+                        for c in &m.children {
+                            if !matches!(c.kind, CKind::Timer { .. }) {
+                                if let Some(k) = c.key {
+                                    want_keys.push(k);
+                                }
+                            }
                         }
                     }
                     _ => {}
